@@ -32,6 +32,20 @@ func TestGroupBy(t *testing.T) {
 		Opt: scen.GenOpt{Horizon: 90 * time.Minute, Depth: 3, Fanout: 3, Probes: true, MaxLabelSets: 8}}, checkers)
 }
 
+// TestLifecycleUnderReceiverFaults: "a group disappears once all its alerts were resolved AND notified" -
+// not earlier: while a receiver fails, hangs until the flush deadline or answers slowly, resolved alerts stay
+// in their group until a notification has carried them; a group that vanished before that never reports them
+// (decided by the resolved-reporting checker on top of the grouping checkers).
+func TestLifecycleUnderReceiverFaults(t *testing.T) {
+	sub := vf.Cur().Sub("lifecycle-under-receiver-faults", fmt.Sprintf(rule, "short timers and receiver fault windows (recoverable and unrecoverable errors, deliveries that hang until the flush deadline, slow successes) while alerts of a group resolve, restarts and reloads; in addition every resolution owed to a receiver must be reported by a later notification of its group (a group destroyed before it was notified never does)"), 20)
+	ck := map[string]sysrun.Checker{"resolved-promptly": oracle.ResolvedPromptly, "resolved-reporting": oracle.ResolvedReporting}
+	for k, v := range checkers {
+		ck[k] = v
+	}
+	sysrun.Run(t, "C06", sub, sysrun.Family{Name: "lifefaults", Quick: 100, Thorough: 5000, NonTrivial: nt,
+		Opt: scen.GenOpt{Horizon: 90 * time.Minute, Depth: 2, Fanout: 2, ShortTimers: true, NearTicks: true, Faults: true, Reloads: true, Restarts: true, Probes: true, MaxLabelSets: 6}}, ck)
+}
+
 func TestLifecycle(t *testing.T) {
 	sub := vf.Cur().Sub("lifecycle", fmt.Sprintf(rule, "short timers, groups emptied by resolved notifications and re-created by re-fires, dispatcher maintenance every 1s, suppression, reloads"), 20)
 	sysrun.Run(t, "C06", sub, sysrun.Family{Name: "life", Quick: 120, Thorough: 6000, NonTrivial: nt,
@@ -142,4 +156,72 @@ func TestStaleUpdateIntoSharedGroup(t *testing.T) {
 	}
 	sysrun.Run(t, "C06", sub, sysrun.Family{Name: "stale", Quick: 40, Thorough: 2000, Gen: staleUpdateIntoSharedGroup,
 		NonTrivial: func(c map[string]int64) bool { return c["members_required"] > 0 }}, ck)
+}
+
+// ---- "a group disappears once all its alerts were resolved AND notified": the two situations in which a
+// group could go away too early (same generators as C05's targeted families; here the grouping checkers
+// and the resolved-reporting checker decide together) ----
+
+func outageDuringResolve(r *rand.Rand) *scen.Scenario {
+	gw := gen.Pick(r, []time.Duration{0, time.Second, 10 * time.Second})
+	gi := gen.Pick(r, []time.Duration{5 * time.Second, 30 * time.Second, time.Minute})
+	ri := gen.Pick(r, []time.Duration{10 * time.Minute, time.Hour})
+	gb := []string{"alertname"}
+	nInt := 1 + r.Intn(2)
+	rc := scen.Receiver{Name: "r0"}
+	for i := 0; i < nInt; i++ {
+		rc.Integs = append(rc.Integs, scen.Integ{SendResolved: true})
+	}
+	cfg := &scen.Config{ResolveTimeout: 5 * time.Minute,
+		Route:     &model.RouteSpec{Receiver: "r0", GroupBy: &gb, GroupWait: &gw, GroupInterval: &gi, RepeatInterval: &ri},
+		Receivers: []scen.Receiver{rc}}
+	s := &scen.Scenario{Config: cfg, Duration: 30 * time.Minute}
+	l := model.Labels{"alertname": "A", "sev": "crit"}
+	t0 := time.Duration(1+r.Intn(30))*time.Second + time.Duration(1+r.Intn(998))*time.Millisecond
+	far := 40 * time.Minute
+	zero := time.Duration(0)
+	s.Ops = append(s.Ops, scen.Op{At: t0, Kind: "alerts", Alerts: []scen.PostSpec{{Labels: l, EndOff: &far}}})
+	if r.Intn(2) == 0 { // a companion that keeps firing
+		s.Ops = append(s.Ops, scen.Op{At: t0 + time.Millisecond, Kind: "alerts", Alerts: []scen.PostSpec{{Labels: model.Labels{"alertname": "A", "sev": "warn"}, EndOff: &far}}})
+	}
+	outFrom := t0 + gw + 2*gi + gi/3
+	outLen := gen.Pick(r, []time.Duration{25 * time.Second, 70 * time.Second, 3 * time.Minute})
+	for i := 0; i < nInt; i++ {
+		s.Faults = append(s.Faults, scen.Fault{Receiver: "r0", Idx: i, From: outFrom, To: outFrom + outLen, Kind: gen.Pick(r, []string{"recoverable", "recoverable", "hang"})})
+	}
+	s.Ops = append(s.Ops, scen.Op{At: outFrom + gen.Pick(r, []time.Duration{time.Second, outLen / 3}) + time.Millisecond, Kind: "alerts", Alerts: []scen.PostSpec{{Labels: l, EndOff: &zero}}})
+	return s
+}
+
+func reloadBetweenResolveAndFlush(r *rand.Rand) *scen.Scenario {
+	gw := gen.Pick(r, []time.Duration{time.Second, 10 * time.Second})
+	gi := gen.Pick(r, []time.Duration{2 * time.Minute, 5 * time.Minute})
+	ri := time.Hour
+	gb := []string{"alertname"}
+	cfg := &scen.Config{ResolveTimeout: 5 * time.Minute,
+		Route:     &model.RouteSpec{Receiver: "r0", GroupBy: &gb, GroupWait: &gw, GroupInterval: &gi, RepeatInterval: &ri},
+		Receivers: []scen.Receiver{{Name: "r0", Integs: []scen.Integ{{SendResolved: true}}}}}
+	s := &scen.Scenario{Config: cfg, Duration: 4 * gi}
+	l := model.Labels{"alertname": "A", "sev": "crit"}
+	t0 := time.Duration(1+r.Intn(30))*time.Second + time.Duration(1+r.Intn(998))*time.Millisecond
+	far := 3 * time.Hour
+	zero := time.Duration(0)
+	s.Ops = append(s.Ops, scen.Op{At: t0, Kind: "alerts", Alerts: []scen.PostSpec{{Labels: l, EndOff: &far}}})
+	k := r.Intn(2)
+	resolveAt := t0 + gw + time.Duration(k)*gi + gi/4
+	s.Ops = append(s.Ops, scen.Op{At: resolveAt, Kind: "alerts", Alerts: []scen.PostSpec{{Labels: l, EndOff: &zero}}})
+	s.Ops = append(s.Ops, scen.Op{At: resolveAt + gi/4 + time.Duration(r.Intn(1000))*time.Millisecond, Kind: "reload", Config: cfg})
+	return s
+}
+
+func TestGroupOutlivesFailedOrMissedFlush(t *testing.T) {
+	ck := map[string]sysrun.Checker{"resolved-promptly": oracle.ResolvedPromptly, "resolved-reporting": oracle.ResolvedReporting}
+	for k, v := range checkers {
+		ck[k] = v
+	}
+	sub := vf.Cur().Sub("group-outlives-a-failed-flush", fmt.Sprintf(rule, "targeted: the receiver is down for several whole flushes (recoverable errors, or hangs until the flush deadline) while an alert it was told about resolves: the group must keep the resolved alert until a notification has carried it"), 20)
+	sysrun.Run(t, "C06", sub, sysrun.Family{Name: "outage", Quick: 80, Thorough: 4000, Gen: outageDuringResolve,
+		NonTrivial: func(c map[string]int64) bool { return c["resolutions_owed"] > 0 }}, ck)
+	sub2 := vf.Cur().Sub("group-rebuilt-for-an-unreported-resolution", fmt.Sprintf(rule, "targeted: an alert notified as firing resolves inside a 2-5 min group interval and the unchanged configuration is reloaded before the next flush: the new dispatcher must rebuild the group for the resolved alert, whose resolution is still owed"), 10)
+	sysrun.Run(t, "C06", sub2, sysrun.Family{Name: "rbrf", Quick: 40, Thorough: 2000, Gen: reloadBetweenResolveAndFlush, NonTrivial: nt}, ck)
 }
